@@ -29,14 +29,14 @@ RULE = ("cases as C13 (exhaustive valid reconciliations of all inputs up to 3x3 
 OPEN_GOALS = [
     "finiteness of all coordinates: holds trivially in the exact-rational model; it is not a statement about IEEE-754 floats "
     "(the correspondence converts every float with Fraction(), which rejects inf/nan, on every generated case)",
-    "idempotence of the IMPLEMENTATION (second run on the same objects, after the first wrote colour features): the model is a pure "
-    "Gallina function, so there is nothing to state about it; the second run is compared with the first by the harness on every generated case",
+    "idempotence of the IMPLEMENTATION (second run on the same objects, after the first wrote colour features): no theorem (the model is a pure "
+    "Gallina function); the second run is compared with the first by the harness on every generated case (twice_same flag)",
 ]
 TECHNIQUE = ("Coq proofs about an executable exact-rational model of layout.compute: structural induction for the mirror law between the two "
              "hand-written orientation branches, linear arithmetic over Q for containment/disjointness; model tied to the code by "
              "exhaustive-small + random correspondence (vm_compute, exact comparison through Fraction(float)); independent geometric oracle "
              "(containment, overlap, mirror by recomputation, idempotence) run on every generated case")
-LEVEL_TEXT = ("Machine-checked, any tree sizes: the layout of every valid reconciliation is defined (no missing key) for all parameters and sizes; (mirror) the horizontal layout is structurally "
+LEVEL_TEXT = ("Additional theorems: a sufficient input-level condition for every trunk to lie inside its box (C14_trunk_inside_sufficient, C14_trunks_disjoint_narrow); the totalisation defaults of the model (missing measure = (0,0), missing key) are never taken when one size per measured node is supplied (C14_zip_sizes_no_default, C14_measure_no_default, C14_pfind_no_default); non-vacuity examples for the trunk proviso and the mirror law. Machine-checked, any tree sizes: the layout of every valid reconciliation is defined (no missing key) for all parameters and sizes; (mirror) the horizontal layout is structurally "
               "the transpose of the vertical layout of the size-swapped input, for all parameters and sizes; for non-negative parameters and node "
               "sizes, in both orientations: the boxes of the two child species lie inside the parent's box and do not overlap; no two trunks "
               "overlap provided every trunk lies inside its own species box, and that proviso cannot be dropped (the section-9 witness, evaluated "
@@ -389,6 +389,76 @@ def extra(ctx):
                 seen_known = True
                 ctx.findings.append(Finding("layout", case, {"known": known[0]}, "(oracle sweep over every generated case)", False, known[0]))
     ctx.dist["c14_oracle_sweep"] = {"cases": len(_SEEN), "violating": n_viol, "with_known_trunk_overlap": n_known}
+
+
+def _search_one(seed):
+    """one fresh random layout judged by the geometric oracle alone: (case, result, first violation | None)"""
+    import random
+    rng = random.Random(seed)
+    ns = rng.randint(4, 9)
+    no = rng.randint(ns, ns + 6)
+    S = recon.rand_shape(rng, ns)
+    if rng.random() < 0.4:           # mirror-symmetric species trees: sibling subtrees of equal height
+        A = recon.rand_shape(rng, rng.randint(2, 4))
+        S = [A, _mirror(A)]
+    if rng.random() < 0.5:           # speciation-only histories on balanced-ish species trees: every species holds one gene
+        O = _one_gene_per_species(S)
+        sol = _lca_solution(S)
+    else:
+        O = recon.rand_otree(rng, no, recon.shape_leaves(S))
+        sol = c13.rand_valid(rng, recon.Oracle(S), O)
+    sizes = c13.rand_sizes2(rng, 40)
+    if rng.random() < 0.6:           # extreme contrasts: a few very wide / very tall nodes among tiny ones
+        sizes = []
+        for _ in range(40):
+            w2 = rng.choice([2, 4, 10, 160, 200]) if rng.random() < 0.7 else rng.randint(2, 200)
+            h2 = rng.choice([2, 4, 10, 160, 200]) if rng.random() < 0.7 else rng.randint(2, 200)
+            d2 = rng.randint(0, h2 - 1)
+            sizes.append([w2, h2 - d2, d2])
+    case = {"S": S, "O": O, "sol": sol, "lab": 0, "orient": rng.choice("VH"), "sizes2": sizes,
+            "params2": c13.rand_params2(rng) if rng.random() < 0.5 else None}
+    if "params2" in case and case["params2"] is None:
+        del case["params2"]
+    r = impl14(case)
+    viol, known = geometry_findings(case, r)
+    return case, r, (viol[0] if viol else None)
+
+
+def _mirror(S):
+    return 0 if S == 0 else [_mirror(S[1]), _mirror(S[0])]
+
+
+def _one_gene_per_species(S, p=""):
+    if S == 0:
+        return {"sp": p, "syn": []}
+    return [_one_gene_per_species(S[0], p + "0"), _one_gene_per_species(S[1], p + "1")]
+
+
+def _lca_solution(S, p=""):
+    if S == 0:
+        return p
+    return [p, _lca_solution(S[0], p + "0"), _lca_solution(S[1], p + "1")]
+
+
+def search(ctx):
+    """the tie is broken but no clause fails on the generated cases: fresh larger layouts, in parallel, for a time budget"""
+    import multiprocessing as mp
+    import time
+    from .. import core
+    t0 = time.time()
+    budget = 150 if ctx.quick() else 900
+    n = 0
+    with mp.get_context("fork").Pool(core.NPROC) as pool:
+        while time.time() - t0 < budget:
+            seeds = [ctx.rng.randrange(1 << 62) for _ in range(1600)]
+            for case, r, why in pool.imap_unordered(_search_one, seeds, chunksize=25):
+                n += 1
+                ctx.evaluations += 1
+                if why is not None:
+                    ctx.notes.append(f"failing-input search: violation found after {n} fresh layouts")
+                    return Finding("layout", case, r, "(geometric oracle)", False, why)
+    ctx.notes.append(f"failing-input search: {n} fresh layouts, none violates a clause")
+    return None
 
 
 def known_signature(finding, entry):
